@@ -256,7 +256,11 @@ def recording(alg, rec, calls=None):
                           "Pi": np.array(Pi, dtype=float).tolist(), "m": m_old.tolist(), "d": d.tolist(),
                           "grad": np.array(grad, dtype=float).reshape(-1).tolist(),
                           "phi": np.array(phi_row, dtype=float).reshape(-1).tolist(),
-                          "out": np.array(res[0], dtype=float).reshape(-1).tolist()})
+                          "out": np.array(res[0], dtype=float).reshape(-1).tolist(),
+                          "evals": int(res[4]),
+                          "fallback": bool(np.array_equal(
+                              np.array(res[0], dtype=float).reshape(-1),
+                              (lambda t: t * (t > 0))(m_old * np.array(phi_row, dtype=float).reshape(-1))))})
         return res
 
     C.tt_linesearch_prowsubprob = wrap
@@ -584,8 +588,15 @@ class Runs(Family):
             last_ok = r
         tags.append("converged" if len(last_ok["kkt"]) < c["kmax"] else "limit")
         tags.append(f"ndirs{min(len(runs[-1][2]) // 50, 5)}")
-        if any(cl["margin"] < TIE for run in runs for cl in run[4]):
+        allcalls = [cl for run in runs for cl in run[4]]
+        if any(cl["margin"] < TIE for cl in allcalls):
             tags.append("has-tie-call")
+        if any(cl["fallback"] for cl in allcalls):
+            tags.append("ls-fallback")
+        if any(cl["evals"] > 2 for cl in allcalls):
+            tags.append("ls-backtracked")
+        if any(v > 0 for v in last_ok["nViol"]):
+            tags.append("mu-bump")
         if pending is not None:
             return (pending[0], pending[1], tags, pending[3])
         return Verdict("ok", "", {"iters": len(last_ok["kkt"]), "obj": last_ok["obj"], "nInner": last_ok["nInner"]},
